@@ -12,6 +12,8 @@ Rewrite rules (each application is counted and reported):
   R11 "literal".into() / .to_string() / .to_owned() -> String::new()   (error-message text only)
   R12 `call(..).map(Type::Ctor)` on a Result -> `match call(..) { Ok(v) => Ok(Type::Ctor(v)), Err(e) => Err(e) }`   (same value)
   R13 `debug!(..);` (log crate) statements are dropped
+  R14 panic!(..) -> return vstd::pervasive::unreached()                      (strengthens: "never reached" becomes an obligation)
+  R15 .expect("literal") -> .unwrap()                                  (same value / same panic condition; message dropped)
   R10 `&s[a..b]` on a slice -> vstd::slice::slice_subrange(s, a, b)   (same value; Verus has no range-index syntax)
   R9 `..` rest patterns / field shorthands are kept; `as usize`/`as i32` casts are kept (Verus checks them)
 Anything else unsupported => Undecided (exit 2), never an alarm."""
@@ -100,6 +102,28 @@ def _rewrite(body, rules, counts):
         # log::debug!(..) statements have no effect on any property
         body, n = re.subn(r"\bdebug!\((?:[^()]|\((?:[^()]|\([^()]*\))*\))*\);", "", body)
         cnt("R13", n)
+    if "R14" in rules:
+        # panic!(msg..) -> return vstd::pervasive::unreached()   (requires false: "this panic can never be reached" becomes
+        # the obligation; the message text is dropped)
+        out, i, n = "", 0, 0
+        while True:
+            m = re.search(r"\bpanic!\s*\(", body[i:])
+            if not m:
+                out += body[i:]
+                break
+            s = i + m.start()
+            o = i + m.end() - 1
+            c = rsx.match_brace(rsx.mask(body), o, "(", ")")
+            # `return <expr>` has type `!` like panic!, and the type of unreached() is then the function's return type
+            out += body[i:s] + "return vstd::pervasive::unreached()"
+            i = c + 1
+            n += 1
+        body = out
+        cnt("R14", n)
+    if "R15" in rules:
+        # opt.expect("literal") -> opt.unwrap()   (same value and same panic condition; Verus then demands `is Some`)
+        body, n = re.subn(r'\.expect\(\s*"(?:[^"\\\\]|\\\\.)*"\s*,?\s*\)', ".unwrap()", body)
+        cnt("R15", n)
     if "R7" in rules:
         body, n = re.subn(r"\(\s*([^()]+?)\s*\.\.\s*\(([^()]+(?:\([^()]*\)[^()]*)*)\)\s*\)\s*\.contains\(\s*&\s*(\w+)\s*\)",
                           r"((\1) <= \3 && \3 < (\2))", body)
@@ -124,14 +148,15 @@ def _apply_r2(body, counts):
                 continue
             close_i = rsx.match_brace(m, open_i)
             inner = body[open_i + 1:close_i]
-            im = re.match(r"(\s*)if\s+(.+?)\s*\{\s*continue;\s*\}", inner, re.S)
+            # comments before the `if` are skipped (matched on the masked text, where they are blanks)
+            im = re.match(r"(\s*)if\s+(.+?)\s*\{\s*continue;\s*\}", m[open_i + 1:close_i], re.S)
             if not im:
                 continue
-            cond = im.group(2)
+            cond = inner[im.start(2):im.end(2)]
             if "{" in cond:
                 continue
             rest = inner[im.end():]
-            body = body[:open_i + 1] + "%sif !(%s) {%s}\n" % (im.group(1), cond, rest) + body[close_i:]
+            body = body[:open_i + 1] + "%sif !(%s) {%s}\n" % (inner[im.start(1):im.end(1)], cond, rest) + body[close_i:]
             counts["R2"] = counts.get("R2", 0) + 1
             changed = True
             break
